@@ -107,6 +107,8 @@ struct Tally {
     cfg_programs: u64,
     cfg_max_nodes: u64,
     cfg_max_edges: u64,
+    worklist_calls: u64,
+    worklist_not_identity: u64,
     outcomes: BTreeSet<u64>,
 }
 
@@ -118,6 +120,9 @@ impl Tally {
         ctx.add_nontrivial(self.nontrivial);
         ctx.stat("graphs", self.graphs);
         ctx.stat("cfg_programs", self.cfg_programs);
+        ctx.add_transitions(self.worklist_calls);
+        ctx.stat("cfg_worklists_checked", self.worklist_calls);
+        ctx.stat("cfg_worklists_that_are_not_the_identity_order", self.worklist_not_identity);
         ctx.stat_max("cfg_max_nodes", self.cfg_max_nodes);
         ctx.stat_max("cfg_max_edges", self.cfg_max_edges);
         ctx.stat("bounded_runs_stabilized", self.bounded_stabilized);
@@ -127,7 +132,9 @@ impl Tally {
         ctx.stat("info_worklist_misses_unstable_node", self.worklist_misses_unstable_node);
         ctx.stat("info_intermediate_not_below_lfp", self.intermediate_not_below_lfp);
         ctx.stat("info_compute_returned_with_nonempty_worklist", self.compute_leaves_worklist);
-        ctx.outcome_set_merge(&self.outcomes);
+        for h in &self.outcomes {
+            ctx.outcome(h);
+        }
         *self = Tally::default();
     }
 }
@@ -363,16 +370,16 @@ fn fun_of_edge(e: &Edge) -> Fun {
     }
 }
 
-fn is_permutation(list: &[NodeIndex], n: usize) -> bool {
+fn is_permutation(list: &[usize], n: usize) -> bool {
     let mut seen = vec![false; n];
     if list.len() != n {
         return false;
     }
-    for x in list {
-        if x.index() >= n || seen[x.index()] {
+    for &x in list {
+        if x >= n || seen[x] {
             return false;
         }
-        seen[x.index()] = true;
+        seen[x] = true;
     }
     true
 }
@@ -390,50 +397,60 @@ fn run_cfg_case(ctx: &Ctx, prog: &ProgSpec, tally: &mut Tally) {
     let n = graph.node_count();
     tally.cfg_max_nodes = tally.cfg_max_nodes.max(n as u64);
     tally.cfg_max_edges = tally.cfg_max_edges.max(graph.edge_count() as u64);
-    let mut orders: Vec<(&str, Option<Vec<usize>>)> = vec![("new", None), ("reverse_index", Some((0..n).rev().collect()))];
-    for (name, f) in [
-        ("bottom_up", create_bottom_up_worklist as fn(&cfg::Graph) -> Vec<NodeIndex>),
-        ("top_down", create_top_down_worklist as fn(&cfg::Graph) -> Vec<NodeIndex>),
-    ] {
-        ctx.add_transitions(1);
-        match catch(|| f(&graph)) {
-            Err(msg) => ctx.violation(format!("panic {}", mcx::panic_site(&msg)), case(), json!({"in": name, "observed": msg})),
-            Ok(list) => {
-                tally.outcomes.insert(mcx::fixed_hash(&(name, list.iter().map(|x| x.index()).collect::<Vec<_>>())));
-                if is_permutation(&list, n) {
-                    orders.push((name, Some(list.iter().map(|x| x.index()).collect())));
-                } else {
-                    ctx.violation(
-                        format!("worklist-not-permutation {name}"),
-                        case(),
-                        json!({"observed": list.iter().map(|x| x.index()).collect::<Vec<_>>(), "expected": format!("a permutation of 0..{n}")}),
-                    );
-                }
-            }
-        }
-    }
-    // the solver on the real graph under the real orders
-    let edges: Vec<(usize, usize)> = graph.edge_indices().map(|e| graph.edge_endpoints(e).map(|(s, t)| (s.index(), t.index())).unwrap()).collect();
-    let funs: Vec<Fun> = graph.edge_indices().map(|e| fun_of_edge(&graph[e])).collect();
     let entry = graph
         .node_indices()
         .find(|i| matches!(graph[*i], Node::BlkStart(b, s) if b.tid == c07_cfg::blk_tid(0, 0) && s.tid == c07_cfg::sub_tid(0)))
         .map(|i| i.index())
         .unwrap_or_else(|| mcx::machinery("entry node of FUN_0 not found"));
-    for sc in [StartCfg { default_empty: false, starts: vec![(entry, 0b001)] }, StartCfg { default_empty: true, starts: vec![(entry, 0b001)] }] {
-        let init = initial_assignment(n, sc.default_empty, &sc.starts);
-        let (lfp, _) = kleene_lfp(n, &edges, &funs, &init);
-        if lfp != init {
-            tally.nontrivial += 1;
+    // the backward analyses hand the *reversed* CFG to the same functions
+    let mut reversed = graph.clone();
+    reversed.reverse();
+    for (gname, graph, start) in [("forward", &graph, entry), ("reversed", &reversed, n - 1)] {
+        let mut orders: Vec<(&str, Option<Vec<usize>>)> = vec![("new", None), ("reverse_index", Some((0..n).rev().collect()))];
+        for (name, f) in [
+            ("bottom_up", create_bottom_up_worklist as fn(&cfg::Graph) -> Vec<NodeIndex>),
+            ("top_down", create_top_down_worklist as fn(&cfg::Graph) -> Vec<NodeIndex>),
+        ] {
+            tally.worklist_calls += 1;
+            match catch(|| f(graph)) {
+                Err(msg) => ctx.violation(format!("panic {}", mcx::panic_site(&msg)), case(), json!({"in": name, "graph": gname, "observed": msg})),
+                Ok(list) => {
+                    let list: Vec<usize> = list.iter().map(|x| x.index()).collect();
+                    tally.outcomes.insert(mcx::fixed_hash(&(name, &list)));
+                    if is_permutation(&list, n) {
+                        if list.iter().enumerate().any(|(i, x)| i != *x) {
+                            tally.worklist_not_identity += 1;
+                        }
+                        orders.push((name, Some(list)));
+                    } else {
+                        ctx.violation(
+                            format!("worklist-not-permutation {name}"),
+                            case(),
+                            json!({"graph": gname, "observed": list, "expected": format!("a permutation of 0..{n}")}),
+                        );
+                    }
+                }
+            }
         }
-        for (oname, order) in &orders {
-            for bound in [None, Some(1), Some(2), Some(3), Some(6)] {
-                let viol = run_one(&graph, &edges, &funs, &sc, &lfp, order.as_deref(), bound, tally);
-                for (key, mut detail) in viol {
-                    detail["order"] = json!(oname);
-                    detail["bound"] = json!(bound);
-                    detail["default_empty"] = json!(sc.default_empty);
-                    ctx.violation(format!("cfg {key}"), case(), detail);
+        // the solver on the real graph under the real orders
+        let edges: Vec<(usize, usize)> = graph.edge_indices().map(|e| graph.edge_endpoints(e).map(|(s, t)| (s.index(), t.index())).unwrap()).collect();
+        let funs: Vec<Fun> = graph.edge_indices().map(|e| fun_of_edge(&graph[e])).collect();
+        for sc in [StartCfg { default_empty: false, starts: vec![(start, 0b001)] }, StartCfg { default_empty: true, starts: vec![(start, 0b001)] }] {
+            let init = initial_assignment(n, sc.default_empty, &sc.starts);
+            let (lfp, _) = kleene_lfp(n, &edges, &funs, &init);
+            if lfp != init {
+                tally.nontrivial += 1;
+            }
+            for (oname, order) in &orders {
+                for bound in [None, Some(1), Some(2), Some(3), Some(6)] {
+                    let viol = run_one(graph, &edges, &funs, &sc, &lfp, order.as_deref(), bound, tally);
+                    for (key, mut detail) in viol {
+                        detail["graph"] = json!(gname);
+                        detail["order"] = json!(oname);
+                        detail["bound"] = json!(bound);
+                        detail["default_empty"] = json!(sc.default_empty);
+                        ctx.violation(format!("cfg {key}"), case(), detail);
+                    }
                 }
             }
         }
@@ -518,6 +535,12 @@ fn main() {
     let ctx = &ctx;
     let (core, wide, full) = (alphabet_core(), alphabet_wide(), alphabet_full());
     let mut slices = Vec::new();
+    let mut cfgs = Vec::new();
+    let shapes: &[&[usize]] = if ctx.thorough() { &[&[1], &[2], &[3], &[1, 1], &[2, 1], &[2, 2], &[3, 1], &[1, 1, 1], &[2, 1, 1]] } else { &[&[1], &[2], &[1, 1], &[2, 1], &[2, 2]] };
+    for s in shapes {
+        cfgs.push(explore_cfgs(ctx, s));
+    }
+    ctx.stat("elapsed_s_after_real_cfgs", ctx.elapsed_s() as u64);
     let (d2, d4) = (alphabet_dense2(), alphabet_dense4());
     // (name, nodes, self-loops, max parallel edges, max edges, alphabet, every start position)
     let plan: Vec<(&str, usize, bool, usize, usize, &[Fun], bool)> = if !ctx.thorough() {
@@ -548,11 +571,6 @@ fn main() {
     for (name, n, loops, mult, me, letters, allpos) in plan {
         slices.push(explore_slice(ctx, name, n, loops, mult, me, letters, allpos));
         ctx.stat(&format!("elapsed_s_after_{name}"), ctx.elapsed_s() as u64);
-    }
-    let mut cfgs = Vec::new();
-    let shapes: &[&[usize]] = if ctx.thorough() { &[&[1], &[2], &[3], &[1, 1], &[2, 1], &[2, 2], &[3, 1], &[1, 1, 1], &[2, 1, 1]] } else { &[&[1], &[2], &[1, 1], &[2, 1], &[2, 2]] };
-    for s in shapes {
-        cfgs.push(explore_cfgs(ctx, s));
     }
     if STOP.load(Ordering::Relaxed) {
         ctx.cap_hit(&format!("enumeration stopped early after more than {VIOLATION_CAP} violations"));
